@@ -373,7 +373,10 @@ bool apply_workload_edit(std::string& d, const Step& st)
     std::vector<P> pts;
     for (int t : tags_named({"point"})) {
       const xmlscan::Tag& T = S.tags[t]; bool in = false; for (auto& r : inside) if (T.b >= r.first && T.b < r.second) in = true;
-      if (in || !has_attr(T, "adj")) continue;
+      // adjusted points, and in one cluster of four also FIXED ones (an observed coordinate of a fixed point is legal
+      // input: it only contributes a residual - and its <point> inside the cluster must not move the fixed point)
+      bool with_fixed = (st.arg(2) / 4) % 4 == 1;
+      if (in || !(has_attr(T, "adj") || (with_fixed && has_attr(T, "fix")))) continue;
       P q; for (auto& a : T.attrs) { std::string n = d.substr(a.nb, a.ne - a.nb), v = d.substr(a.vb, a.ve - a.vb); if (n == "id") q.id = v; else if (n == "x") q.x = v; else if (n == "y") q.y = v; else if (n == "z") q.z = v; }
       auto plain = [](const std::string& v) { if (v.empty()) return false; for (char c : v) if (!(isdigit((unsigned char)c) || c == '.' || c == '-' || c == ' ')) return false; return true; };
       if (q.id.empty() || q.id.find('"') != std::string::npos) continue;
@@ -398,7 +401,11 @@ bool apply_workload_edit(std::string& d, const Step& st)
     int band = dim > 1 && st.arg(2) % 2 ? 1 : 0;
     std::string cov = fmt("<cov-mat dim=\"%d\" band=\"%d\">", dim, band);
     for (int i = 0; i < dim; i++) { cov += " 25"; if (band && i + 1 < dim) cov += " 2"; }
-    d.insert(close, "<coordinates>\n" + body + cov + " </cov-mat>\n</coordinates>\n");
+    // at the end of the section or at its BEGINNING, before the points are declared (the declarations that follow
+    // then state the approximate / fixed coordinates, whatever the cluster said)
+    size_t where = close;
+    if ((st.arg(2) / 2) % 2 == 1) { for (size_t t = 0; t < S.tags.size(); t++) if (S.tags[t].start && S.tags[t].name == "points-observations") { where = S.tags[t].e; break; } }
+    d.insert(where, "\n<coordinates>\n" + body + cov + " </cov-mat>\n</coordinates>\n");
     return true;
   }
   if (st.op == "tiny") {
